@@ -1298,4 +1298,4 @@ mod tests_public_api {
 
 #[cfg(kani)]
 #[path = "/verif/harness/teos/internal_api.rs"]
-mod verif_harness;
+pub(crate) mod verif_harness;
